@@ -535,7 +535,7 @@ fn gen_format12(rng: &mut Rng, p: &mut Vec<u32>) -> Vec<u8> {
             0 => 1,
             1 => 1 + rng.below(700) as u32,
             2 if rng.chance(1, 4) => 65530 + rng.below(12) as u32, // around the 65536-iteration limit of mappings_fn
-            3 if rng.chance(1, 3) => *rng.pick(&[65537u32, 70000, 0x11_0000, 0x100_0000, 0xFFFF_FFFF]), // far beyond it
+            3 | 4 => *rng.pick(&[65537u32, 70000, 0x11_0000, 0x100_0000, 0xFFFF_FFFF]), // far beyond it
             _ => 1 + rng.below(20) as u32,
         };
         let s = cur.saturating_add(gap);
